@@ -166,6 +166,27 @@ EXC["SubTypeError"] = SubTypeError
 EXC["SubKeyError"] = SubKeyError
 
 
+class CtorError(Exception):
+    """a user exception whose constructor takes more than a message"""
+
+    def __init__(self, msg, code=7, *, detail=None):
+        super().__init__(msg)
+        self.code, self.detail = code, detail
+
+
+EXC["CtorError"] = CtorError
+# every built-in `Exception` subclass a user function can raise with a message (RecursionError, MemoryError,
+# StopIteration, OSError and its subclasses, the warnings, ... — about sixty classes)
+import builtins as _builtins
+for _n, _c in sorted(vars(_builtins).items()):
+    if isinstance(_c, type) and issubclass(_c, Exception) and _n not in EXC and _c.__name__ == _n:
+        try:
+            _c("x")
+        except Exception:
+            continue
+        EXC[_n] = _c
+
+
 def make_fn(name: str, spec: Dict[str, Any] | None) -> Named:
     """twin of Driver.lean `mkBeta` for one name"""
     if spec is None:
